@@ -19,3 +19,7 @@ reg("C19", "exploration", "DESIGN 5.2 C19",
     "Histories of 2..64 protect calls (identical arguments at a frozen simulated instant; offline, online seed-key and public-key replies for DH/P256/P384; interleaved unprotects; concurrent async groups under a PRNG scheduler) run with a ledger entropy source behind os.urandom and AESGCM.generate_key; the reference opens every emitted blob and CEK, GCM nonce, key_info and ciphertext must be pairwise distinct within each history.",
     "trusted: ref.cms/ref.gkdi to recover the CEK; the simulated entropy source is collision-free by construction, so the check decides 'each value is drawn fresh per call', not the quality of the OS RNG",
     T + ": entropy seam with draw ledger, frozen clock, history oracle")
+reg("C04", "fault_enumeration", "DESIGN 5.3 C04",
+    "Storage faults are injected into the blob at rest between protect and unprotect (every single-bit flip and every truncation of the enumerated base blobs - 4 hashes x nonce/DH/P256/P384, both layouts, reference- and library-made - plus PRNG substitution/insertion/deletion, multi-site and field-targeted corruption); the real unprotect runs with correct offline key material and no reachable DC; the only violation is 'returned bytes differ from the original plaintext'.",
+    "trusted: AES-KW/AES-GCM primitives of the cryptography package; ref.cms offset map for field targeting; a connection attempt is classified at the seam as needs-network",
+    T + ": enumerated storage faults (bit rot, torn records) on the blob at rest")
